@@ -7,6 +7,7 @@ ANCHORS = K.ANCHORS
 def run(ctx, res):
     from . import genarith
     genarith.regenerate(ctx.pid, "audit", res)   # regenerated tie: overstatement assorter, u bound, tally margins (DESIGN 2.1)
+    genarith.regenerate(ctx.pid, "audit_skeletons", res)   # whole-function skeletons: overstatement, overstatement_assorter(_mean/_margin), Assorter.mean, set_margin_from_cvrs
     nw = ctx.n(320, 4000)
     pool, cmp_, spv, viol, runs, stats, facts = K.run_worlds(ctx, nw)
     bviol, bruns, bstats = K.run_big(ctx, ctx.n(4, 40))      # large / awkward worlds: oracles only
